@@ -1436,6 +1436,10 @@ class SSHConnection(SSHPacketHandler, asyncio.Protocol):
 
         # pylint: disable=unused-argument
 
+        if not self._transport:
+            # Discard data which arrives after the connection is closed
+            return
+
         self._inpbuf += data
 
         self._recv_data()
